@@ -17,26 +17,23 @@ class UnitType:
     def convert(self, magnitude1):
         if not hasattr(self, self.conversion[0]):
                 raise Exception('Conversion method is not implemented:', self.conversion[0])
-        if isinstance(magnitude1.value, Decimal) or \
-           isinstance(self.baseunits1.magnitude, Decimal) or \
-           isinstance(self.baseunits2.magnitude, Decimal):
-            magnitude1.value = Decimal(magnitude1.value)
-            self.baseunits1.magnitude = Decimal(self.baseunits1.magnitude)
-            self.baseunits2.magnitude = Decimal(self.baseunits2.magnitude)
+        value, factor1, factor2 = magnitude1.value, self.baseunits1.magnitude, self.baseunits2.magnitude
+        if isinstance(value, Decimal) or isinstance(factor1, Decimal) or isinstance(factor2, Decimal):
+            value, factor1, factor2 = Decimal(value), Decimal(factor1), Decimal(factor2)
         return Magnitude(
-            getattr(self, self.conversion[0])(magnitude1.value * self.baseunits1.magnitude, *self.conversion[1:]) / self.baseunits2.magnitude,
+            getattr(self, self.conversion[0])(value * factor1, *self.conversion[1:]) / factor2,
             magnitude1.error
         )
         
     def add(self, unit1, unit2):
         if self.baseunits1.dimensions!=self.baseunits2.dimensions:
             raise Exception('Only units with the same dimension can added together', unit1, unit2)
-        return unit1.magnitude + unit2.to(unit1.baseunits).magnitude
+        return unit1.magnitude + unit2._convert(unit2.magnitude, unit2.baseunits, unit1.baseunits)
 
     def sub(self, unit1, unit2):
         if self.baseunits1.dimensions!=self.baseunits2.dimensions:
             raise Exception('Only units with the same dimension can added together', unit1, unit2)
-        return unit1.magnitude - unit2.to(unit1.baseunits).magnitude
+        return unit1.magnitude - unit2._convert(unit2.magnitude, unit2.baseunits, unit1.baseunits)
 
 class StandardUnitType(UnitType):
 
@@ -209,10 +206,9 @@ class LogarithmicUnitType(UnitType):
             raise Exception('Only units with the same dimension can added together', unit1, unit2)
         if self.baseunits1.units!=self.baseunits2.units:
             raise Exception('Only the same units can be added', unit1, unit2)
-        mag1 = unit1.magnitude
-        mag2 = unit2.to(unit1.baseunits).magnitude
-        mag1.value = np.power(10,mag1.value*unit1.baseunits.magnitude)
-        mag2.value = np.power(10,mag2.value*unit2.baseunits.magnitude)
+        mag2 = unit2._convert(unit2.magnitude, unit2.baseunits, unit1.baseunits)
+        mag1 = Magnitude(np.power(10,unit1.magnitude.value*unit1.baseunits.magnitude), unit1.magnitude.error)
+        mag2 = Magnitude(np.power(10,mag2.value*unit1.baseunits.magnitude), mag2.error)
         mag = mag1 + mag2
         mag.value = np.log10(mag.value)/unit1.baseunits.magnitude
         return mag
@@ -222,10 +218,9 @@ class LogarithmicUnitType(UnitType):
             raise Exception('Only units with the same dimension can added together', unit1, unit2)
         if self.baseunits1.units!=self.baseunits2.units:
             raise Exception('Only the same units can be substracted', unit1, unit2)
-        mag1 = unit1.magnitude
-        mag2 = unit2.to(unit1.baseunits).magnitude
-        mag1.value = np.power(10,mag1.value*unit1.baseunits.magnitude)
-        mag2.value = np.power(10,mag2.value*unit2.baseunits.magnitude)
+        mag2 = unit2._convert(unit2.magnitude, unit2.baseunits, unit1.baseunits)
+        mag1 = Magnitude(np.power(10,unit1.magnitude.value*unit1.baseunits.magnitude), unit1.magnitude.error)
+        mag2 = Magnitude(np.power(10,mag2.value*unit1.baseunits.magnitude), mag2.error)
         mag = mag1 - mag2
         mag.value = np.log10(mag.value)/unit1.baseunits.magnitude
         return mag
